@@ -697,9 +697,24 @@ class Evaluator:
             items = None
             if a is not None and a[0] in ("tuple", "list") and len(a[1]) == len(tgt.elts) and not any(isinstance(e, ast.Starred) for e in tgt.elts):
                 items = list(a[1])
+            nstar = [i for i, e in enumerate(tgt.elts) if isinstance(e, ast.Starred)]
             for i, e in enumerate(tgt.elts):
                 if isinstance(e, ast.Starred):
-                    self.assign(e.value, atom(("opaque", "starred", T.akey(v))), st, stmt, quiet)
+                    if len(nstar) == 1:
+                        # first, *rest, last = v :  rest is v[1:-1] (as a list; for a list or array v the same elements in order)
+                        after = len(tgt.elts) - 1 - i
+                        if a is not None and a[0] in ("tuple", "list"):
+                            vals = a[1][i:len(a[1]) - after] if len(a[1]) >= len(tgt.elts) - 1 else None
+                            sv = atom(("list", tuple(vals))) if vals is not None else atom(("opaque", "starred", T.akey(v)))
+                        else:
+                            sv = self.mk_sub(v, atom(("slice", const(i) if i else T.NONE if False else const(i), const(-after) if after else T.NONE, T.NONE)))
+                        self.assign(e.value, sv, st, stmt, quiet)
+                    else:
+                        self.assign(e.value, atom(("opaque", "starred", T.akey(v))), st, stmt, quiet)
+                elif nstar and i > nstar[0]:
+                    # positions after the star count from the end
+                    k_ = i - len(tgt.elts)
+                    self.assign(e, a[1][k_] if a is not None and a[0] in ("tuple", "list") and len(a[1]) >= len(tgt.elts) - 1 else self.mk_sub(v, const(k_)), st, stmt, quiet)
                 else:
                     self.assign(e, items[i] if items is not None else self.mk_sub(v, const(i)), st, stmt, quiet)
             return
@@ -1061,6 +1076,16 @@ class Evaluator:
                     return self.mk_sub(a[2][0], idx)
             if a[0] == "ite":
                 return T.mk_ite(a[1], self.mk_sub(a[2], idx), self.mk_sub(a[3], idx))
+            if a[0] == "sub" and idx.is_const() and idx.const_value().denominator == 1:
+                # an element of a slice is an element of the sliced sequence: x[a:][i] == x[a+i] (i >= 0), x[:-k][-j] == x[-(k+j)]
+                sl = a[2].single_atom()
+                i = int(idx.const_value())
+                if sl is not None and sl[0] == "slice" and sl[3] == T.NONE:
+                    lo, hi = sl[1], sl[2]
+                    if i >= 0 and (lo == T.NONE or (lo.is_const() and lo.const_value() >= 0)):
+                        return self.mk_sub(a[1], const(i + (0 if lo == T.NONE else int(lo.const_value()))))
+                    if i < 0 and (hi == T.NONE or (hi.is_const() and hi.const_value() < 0)):
+                        return self.mk_sub(a[1], const(i + (0 if hi == T.NONE else int(hi.const_value()))))
         return atom(("sub", base, idx))
 
     def ev_BinOp(self, e, st):
@@ -1177,6 +1202,9 @@ class Evaluator:
         bb = b.single_atom()
         if bb is not None and bb[0] in ("tuple", "list", "set") and T.is_pure_const(a) and all(T.is_pure_const(x) for x in bb[1]):
             res = any(x == a for x in bb[1])
+            return const(res != neg)
+        if bb is not None and bb[0] == "dict" and T.is_pure_const(a) and all(T.is_pure_const(k_) for k_, _v in bb[1]):
+            res = any(k_ == a for k_, _v in bb[1])
             return const(res != neg)
         if bb is not None and bb[0] == "mcall" and bb[2] == "keys" and not bb[3] and not bb[4]:
             b = bb[1]  # `k in d.keys()` is `k in d`
@@ -1540,6 +1568,13 @@ class Evaluator:
             return T.NONE
         if d == "getattr" or d == "setattr":
             raise AnalysisError("dynamic attribute access (%s) at line %d" % (d, node.lineno))
+        if d == "int" and len(args) == 1 and not kwargs and not args[0].is_const():
+            # int(len(x) / k) == len(x) // k for a positive integer k (a length is a non-negative integer)
+            x = args[0]
+            if x.den == (((), T.Fraction(1)),) and len(x.num) == 1:
+                (m, coef), = x.num
+                if len(m) == 1 and m[0][1] == 1 and m[0][0][0] == "call" and m[0][0][1] == "len" and coef.numerator == 1 and coef.denominator > 1:
+                    return atom(("floordiv", atom(m[0][0]), const(coef.denominator)))
         if d == "len" and len(args) == 1 and not kwargs:
             # len(np.array(x)) == len(list(x)) == len(x);  len(x + c) == len(c * x) == len(x) for elementwise arithmetic with a scalar
             x = args[0]
@@ -1592,6 +1627,20 @@ class Evaluator:
 
     def _call_value(self, fv, args, kwargs, st, node):
         a = fv.single_atom()
+        if a is not None and a[0] == "ite" and all((x.single_atom() or ("",))[0] in ("closure", "boundmethod", "global", "lambda", "ite") for x in (a[2], a[3])):
+            # f = g if c else h; f(x)  ==  g(x) if c else h(x)
+            mark = len(self.pc)
+            self.push_pc(a[1], True, node)
+            s1 = st.copy()
+            v1 = self._call_value(a[2], args, kwargs, s1, node)
+            del self.pc[mark:]
+            self.push_pc(a[1], False, node)
+            s2 = st.copy()
+            v2 = self._call_value(a[3], args, kwargs, s2, node)
+            del self.pc[mark:]
+            st.attrs = self._merge_maps(a[1], s1.attrs, s2.attrs)
+            st.locs = self._merge_locs(a[1], s1.locs, s2.locs)
+            return T.mk_ite(a[1], v1, v2)
         if a is not None:
             if a[0] == "closure":
                 fi = self._find_closure(a[1])
